@@ -71,6 +71,16 @@ def generate(rng, tier):
                 args.append("-n")
         ops.append(scen.cmd("create", "@R", *args))
         ops.append({"op": "advance", "us": rng.choice([1_000_000, 3_600_000_000])})
+    files_now = gen.tree_files(tree)
+    if files_now and rng.random() < 0.3:
+        # a rename recorded with -dr, then one more generation: the rename map must work for every spelling of the root
+        src = rng.choice(files_now)
+        dst = os.path.join(os.path.dirname(src), "renamed_%d.bin" % rng.randrange(99))
+        fm = gen.fmt_args(gen.pick_formats(rng, 1, 1))
+        ops += [scen.cmd("create", "@R", *fm), {"op": "advance", "us": 1_000_000},
+                {"op": "rename", "src": src, "dst": dst, "fault": "rename_file"},
+                scen.cmd("create", "@R", "-dr", *fm), {"op": "advance", "us": 1_000_000},
+                scen.cmd("create", "@R", *fm), {"op": "advance", "us": 1_000_000}]
     mount = rng.choice(MOUNTS)
     mount = [pat.strip("/*") + ("x" if "*" in pat and pat.startswith("tmp") else "") if m == "PATTERN" else m for m in mount]
     mount = [m if m else "pp" for m in mount]
